@@ -558,6 +558,9 @@ impl G {
             1 => self.range(7, 127),
             _ => if self.chance(1, 3) { *self.r.pick(&[128u64, 129, 255, 256, 1400, 65536, u64::MAX]) } else { self.edge().max(128) },
         };
+        self.constr_with(alt, depth)
+    }
+    fn constr_with(&mut self, alt: u64, depth: u32) -> PlutusData {
         match self.below(3) {
             0 => PlutusData::new_empty_constr_plutus_data(&bn(alt)),
             1 => { let d = self.plutus_data(depth); PlutusData::new_single_value_constr_plutus_data(&bn(alt), &d) }
@@ -780,7 +783,7 @@ const API: &[(&str, &[&str])] = &[
     ("NativeScript", &["pubkey", "all", "any", "n_of_k", "timelock_start", "timelock_expiry", "nested"]),
     ("NativeScripts", &["list"]),
     ("PlutusScripts", &["list"]),
-    ("PlutusData", &["constr_small", "constr_mid", "constr_big", "map", "list_empty", "list_nonempty", "int_small",
+    ("PlutusData", &["constr_small", "constr_mid", "constr_big", "constr_alt6", "constr_alt7", "constr_alt127", "constr_alt128", "map", "list_empty", "list_nonempty", "int_small",
         "int_big_pos", "int_big_neg", "bytes_short", "bytes_long", "nested", "nv_map_duplicate_key"]),
     ("PlutusList", &["basic"]),
     ("Redeemers", &["basic", "nv_index_u64", "nv_empty"]),
@@ -937,6 +940,11 @@ fn api(ty: &str, label: &str, k: u64) -> Option<Vec<u8>> {
         ("PlutusData", "constr_small") => g.constr(0, 1).to_bytes(),
         ("PlutusData", "constr_mid") => g.constr(1, 1).to_bytes(),
         ("PlutusData", "constr_big") => g.constr(2, 1).to_bytes(),
+        // the boundaries of the compact constructor tags: 121+alt up to 6, 1280+(alt-7) up to 127, general form from 128
+        ("PlutusData", "constr_alt6") => g.constr_with(6, 1).to_bytes(),
+        ("PlutusData", "constr_alt7") => g.constr_with(7, 1).to_bytes(),
+        ("PlutusData", "constr_alt127") => g.constr_with(127, 1).to_bytes(),
+        ("PlutusData", "constr_alt128") => g.constr_with(128, 1).to_bytes(),
         ("PlutusData", "map") => PlutusData::new_map(&g.plutus_map(1)).to_bytes(),
         ("PlutusData", "list_empty") => PlutusData::new_list(&PlutusList::new()).to_bytes(),
         ("PlutusData", "list_nonempty") => PlutusData::new_list(&g.plutus_list(1, 4, 1)).to_bytes(),
